@@ -355,7 +355,6 @@ STEP_TABLE = [
                           r"myth_spin_lock_body\s*\(\s*&th->lock", r'"detach\.check"', r"myth_desc_is_finished\s*\(\s*th\s*\)",
                           r"myth_spin_unlock_body\s*\(\s*&th->lock", r"while\s*\(\s*th->status\s*!=\s*MYTH_STATUS_FREE_READY2", r'"detach\.reap"',
                           r"free_myth_thread_struct_desc", r'"detach\.set"', r"myth_desc_set_detached", r"myth_spin_unlock_body\s*\(\s*&th->lock"]),
-    ("myth_desc_is_finished", [r"thread->status\s*>=\s*MYTH_STATUS_FREE_READY\b"]),
 ]
 
 
